@@ -50,6 +50,8 @@ struct Preprocessor {
     helpers: Vec<HelperForm>,
     strict: bool,
     stored_macros: HashMap<Vec<u8>, Rc<SExp>>,
+    // Files whose includes are being followed right now (cycle detection).
+    include_stack: Vec<String>,
 }
 
 fn compose_defconst(loc: Srcloc, name: &[u8], sexp: Rc<SExp>) -> Rc<SExp> {
@@ -101,6 +103,7 @@ impl Preprocessor {
             helpers: Vec::new(),
             strict: opts.dialect().strict,
             stored_macros: HashMap::default(),
+            include_stack: Vec::new(),
         }
     }
 
@@ -206,6 +209,12 @@ impl Preprocessor {
         }
 
         let (full_name, content) = self.opts.read_new_file(self.opts.filename(), name_string)?;
+        if self.include_stack.contains(&full_name) {
+            return Err(CompileErr(
+                desc.nl.clone(),
+                format!("{full_name} includes itself"),
+            ));
+        }
         includes.push(IncludeDesc {
             name: full_name.as_bytes().to_vec(),
             ..desc
@@ -219,9 +228,12 @@ impl Preprocessor {
 
         let program_form = parsed[0].clone();
         if let Some(l) = program_form.proper_list() {
-            for elt in l.iter() {
-                self.process_pp_form(includes, Rc::new(elt.clone()))?;
-            }
+            self.include_stack.push(full_name);
+            let result = l
+                .iter()
+                .try_for_each(|elt| self.process_pp_form(includes, Rc::new(elt.clone())).map(|_| ()));
+            self.include_stack.pop();
+            result?;
         }
 
         Ok(())
